@@ -136,6 +136,25 @@ fn insert_toggles(p: &Prog, t: &mut Tape) -> Prog {
     out
 }
 
+/// Is there, outside every verbatim span, a pair of tokens on one line separated by anything
+/// but nothing or one space? (Gaps in front of a toggle comment are kept as typed: F-C08-toggle-gap.)
+fn noncanonical_gap_outside(out: &str) -> bool {
+    let toks = refscan::scan(out);
+    let spans = verbatim_spans(out);
+    let inside = |pos: usize| spans.iter().any(|(a, b, _, _)| pos >= *a && pos < *b);
+    toks.windows(2).any(|w| {
+        let (a, b) = (&w[0], &w[1]);
+        if b.kind == Kind::Eof || inside(a.start) || inside(b.start) || a.asm || b.asm {
+            return false;
+        }
+        if b.kind.is_comment() && toggle::parse_toggle(b.text(out)).is_some() {
+            return false;
+        }
+        let gap = &out[b.ws_start..b.start];
+        !gap.contains('\n') && !gap.contains('\r') && !gap.is_empty() && gap != " "
+    })
+}
+
 /// Verbatim spans of the input: (start, end, open_to_eof, what).
 pub fn verbatim_spans(input: &str) -> Vec<(usize, usize, bool, &'static str)> {
     let toks = refscan::scan(input);
@@ -286,10 +305,7 @@ impl Prop for C07Prop {
                 // The wrapper mostly leaves a logical line that contains ignored tokens as typed
                 // (line breaks, indentation: open finding); the per-token rules still apply to its
                 // enabled tokens. Is the spacing between two tokens on one line canonical?
-                let bad_gap = crate::props::c08::check_ws(&out, &case.cfg)
-                    .iter()
-                    .chain(crate::props::c08::check_ws(&out2, &case.cfg).iter())
-                    .any(|f| f.clause == "gap" && f.facts.iter().any(|x| x == "not-before-toggle"));
+                let bad_gap = noncanonical_gap_outside(&out) || noncanonical_gap_outside(&out2);
                 return Outcome::Fail(
                     Failure::new(
                         "outside-not-formatted",
